@@ -184,8 +184,32 @@ def Adv.mitm (cfgA cfgB : Config) (adv : Adv) : Mitm :=
     { onReq := fun m1 m2 => (some (ReqMod.proto.apply m1), some (ReqMod.proto.apply m2))
       onResp := fun _ _ m3 m4 => (m3, m4) }
 
-/-- One row of the table: the main session under adversary action `adv`. -/
-def runRow (cfgA cfgB : Config) (adv : Adv) : Outcome :=
-  session cfgA cfgB chalMainA chalMainB nonceMainA nonceMainB (adv.mitm cfgA cfgB)
+/-- the message (1..4) a single-message action touches; 0 = none -/
+def Adv.idx : Adv → Nat
+  | .drop i | .reflect i | .earlier i | .parallel i | .modReq i _ | .modResp i _ => i
+  | .none | .doubleProto => 0
+
+/-- `x` decides what is delivered as message `i`, `y` everything else. (Every single-message action
+computes its substitute from the messages *as sent*, so actions on different messages are independent.) -/
+def Mitm.override (i : Nat) (x y : Mitm) : Mitm :=
+  { onReq := fun m1 m2 =>
+      let a := x.onReq m1 m2
+      let b := y.onReq m1 m2
+      (if i = 1 then a.1 else b.1, if i = 2 then a.2 else b.2)
+    onResp := fun m1 m2 m3 m4 =>
+      let a := x.onResp m1 m2 m3 m4
+      let b := y.onResp m1 m2 m3 m4
+      (if i = 3 then a.1 else b.1, if i = 4 then a.2 else b.2) }
+
+/-- Several single-message actions (on different messages) in one session: thorough-tier pairs table,
+outside C20's single-substitution quantifier. -/
+def mitmOfList (cfgA cfgB : Config) : List Adv → Mitm
+  | [] => .passive
+  | [a] => a.mitm cfgA cfgB
+  | a :: rest => Mitm.override a.idx (a.mitm cfgA cfgB) (mitmOfList cfgA cfgB rest)
+
+/-- One row of the table: the main session under the adversary action(s) `advs`. -/
+def runRow (cfgA cfgB : Config) (advs : List Adv) : Outcome :=
+  session cfgA cfgB chalMainA chalMainB nonceMainA nonceMainB (mitmOfList cfgA cfgB advs)
 
 end HqModel.Auth
